@@ -610,7 +610,13 @@ def replay_step(o):
             variants.append((ex_[:-len(good)] + data + good if ex_ else data, q))
     optsets = [(pf, parsing, val)] + ([(7, True, 1), (7, True, 0)] if (pf, parsing) != (7, True) else [])
     h0 = bool(inp.get("errorhandler", True))
-    variants = [(d2, q, o_, h) for o_ in optsets for (d2, q) in variants for h in dict.fromkeys((h0, True, False))]
+    variants = [(d2, q, o_, h) for o_ in optsets for (d2, q) in variants for h in dict.fromkeys((h0, True, False, "falsy"))]
+
+    class _FalsyCollector(list):
+        """a callable handler object whose truth value is False while it has collected nothing"""
+
+        def __call__(self, e):
+            self.append(e)
     import logging
 
     class _Count(logging.Handler):
@@ -624,7 +630,7 @@ def replay_step(o):
 
     for d2, q, (pf, parsing, val), has_handler in variants:
         q = int(q) if int(q) in (0, 1, 2) else 0
-        reports = []
+        reports = _FalsyCollector() if has_handler == "falsy" else []
         real = []
         counter = _Count()
         lg = logging.getLogger("pyubx2.ubxreader")
@@ -634,7 +640,8 @@ def replay_step(o):
         try:
             for raw, parsed in UBXReader(io.BytesIO(d2), protfilter=pf, parsing=parsing, validate=val, msgmode=mode,
                                          parsebitfield=pbf, labelmsm=lm, quitonerror=q,
-                                         errorhandler=(lambda e: reports.append(e)) if has_handler else None):
+                                         errorhandler=(reports if has_handler == "falsy" else
+                                                       (lambda e: reports.append(e)) if has_handler else None)):
                 real.append((raw, None if parsed is None else str(parsed)))
         except Exception as e:  # noqa
             real.append(("EXC", type(e).__name__))
